@@ -126,6 +126,11 @@ pub fn swarm(rng: &mut Rng, flavor: Flavor, max_len: usize) -> Swarm {
             exact = true;
         }
     }
+    // a handful of runs per batch beyond 1 MiB: a cap or window of that size in a single call
+    if max_len > 1_150_000 && rng.chance(1, 15_000) {
+        target_len = 1_048_577 + rng.below(100_000);
+        exact = true;
+    }
     Swarm { weights, target_len, exact }
 }
 
@@ -142,7 +147,7 @@ pub fn workload(rng: &mut Rng, flavor: Flavor, max_len: usize) -> Workload {
     } else {
         None
     };
-    while wl.bytes.len() < target_len && wl.toks.len() < 40_000 {
+    while wl.bytes.len() < target_len && wl.toks.len() < 40_000usize.max(target_len / 4) {
         let kind = ALL_KINDS[rng.weighted(&sw.weights)];
         let start = wl.bytes.len();
         token(rng, kind, flavor, &mut wl.bytes);
